@@ -26,6 +26,11 @@ CxOf(t) == [Cx0 EXCEPT !.strict = Fld(t, "strict", FALSE), !.path = Fld(t, "path
 
 Expected(t) == Render(CxOf(t), t.prog, EnvOf(t.env))
 
+\* anyorder = n: the program iterates a map of n entries, in an order the
+\* property under test leaves open; accepted when some order explains it
+Perms(n) == {p \in [1..n -> 1..n] : \A i, j \in 1..n : p[i] = p[j] => i = j}
+ExpectedUnder(t, p) == Render([CxOf(t) EXCEPT !.perm = p], t.prog, EnvOf(t.env))
+
 \* "ok" | "unspec" | "REJECT"
 Verdict(t, exp) ==
   CASE exp.status = "ok" -> IF t.outcome = "ok" /\ t.out = exp.out THEN "ok" ELSE "REJECT"
@@ -41,7 +46,10 @@ Next ==
   /\ l <= Len(Trace)
   /\ l' = l + 1
   /\ LET t == Trace[l]
-         exp == Expected(t)
+         n == Fld(t, "anyorder", 0)
+         good == IF n = 0 THEN {} ELSE {p \in Perms(n) : Verdict(t, ExpectedUnder(t, p)) # "REJECT"}
+         exp == IF n = 0 THEN Expected(t)
+                ELSE ExpectedUnder(t, IF good = {} THEN [i \in 1..n |-> i] ELSE CHOOSE p \in good : TRUE)
          v == Verdict(t, exp)
      IN  IF v = "REJECT"
          THEN PrintT(<<"V", t.id, v, ToJson([status |-> exp.status, out |-> exp.out, errline |-> exp.err.line])>>)
